@@ -56,3 +56,17 @@ pub fn strip_nulls(v: serde_json::Value) -> serde_json::Value {
         other => other,
     }
 }
+
+/// Puts a marker line into the fsrec log when the recorder shim is loaded (no-op otherwise).
+pub fn fsrec_mark(text: &str) {
+    use std::ffi::CString;
+    unsafe {
+        let sym = libc::dlsym(libc::RTLD_DEFAULT, b"fsrec_mark\0".as_ptr() as *const libc::c_char);
+        if !sym.is_null() {
+            let f: extern "C" fn(*const libc::c_char) = std::mem::transmute(sym);
+            if let Ok(c) = CString::new(text.replace('"', "'")) {
+                f(c.as_ptr());
+            }
+        }
+    }
+}
